@@ -82,7 +82,8 @@ class _Dec:
             return self.memo[key]
         kind = spec[0]
         if kind == 'Party':
-            o = vc.PoliticalParty(spec[1], number=spec[2] if len(spec) > 2 else None)
+            o = vc.PoliticalParty(spec[1], number=spec[2] if len(spec) > 2 else None,
+                                  properties=dict(spec[3]) if len(spec) > 3 else None)
         elif kind == 'Coalition':
             o = vc.Coalition([self.obj(['Party', p]) for p in spec[2]], name=spec[1])
         elif kind == 'Person':
@@ -707,3 +708,132 @@ def _targets():
 
 def accepts_n(obj):
     return 'n_seats' in inspect.signature(obj.evaluate).parameters
+
+
+# --- special input generators
+
+def _party(name, number=None, props=None):
+    spec = ['Party', name]
+    if number is not None or props:
+        spec.append(number)
+    if props:
+        spec.append([[k, v] for k, v in props.items()])
+    return {'O': spec}
+
+
+def _person(name, number=None, party=None, props=None):
+    spec = ['Person', name, number, party]
+    if props:
+        spec.append([[k, v] for k, v in props.items()])
+    return {'O': spec}
+
+
+def _g_person_votes(rng):
+    ps = [_person(f'p{i}', number=rng.choice([1, 2, 3, 4, 5, 6]) if True else None,
+                  party=rng.choice(['A', 'B', None])) for i in range(rng.randint(2, 4))]
+    # distinct numbers so that CandidateNumberRanker is well defined
+    for i, p in enumerate(ps):
+        p['O'][2] = i * 2 + rng.randint(1, 2)
+    rng.shuffle(ps)
+    return D([(p, g_count(rng, frac=False)) for p in ps])
+
+
+def _g_person_selection(rng):
+    v = _g_person_votes(rng)
+    return L([k for k, _ in v['D']])
+
+
+def _g_party_votes(rng, props=False, coal=False):
+    out = []
+    for i, nm in enumerate(['A', 'B', 'C', 'D'][:rng.randint(2, 4)]):
+        if coal and rng.random() < 0.4:
+            k = {'O': ['Coalition', 'K' + nm, [nm + '1', nm + '2', nm + '3'][:rng.randint(2, 3)]]}
+        elif props and rng.random() < 0.4:
+            k = _party(nm, None, {'minority': True})
+        else:
+            k = _party(nm)
+        out.append((k, g_count(rng, frac=False)))
+    return D(out)
+
+
+def _g_biprop(rng):
+    ps = g_cands(rng, 2, 3)
+    return D([(d, D([(p, rng.randint(1, 30)) for p in ps])) for d in DN[:rng.randint(2, 3)]])
+
+
+def _c_openlist(rng):
+    cs = g_cands(rng, 2, 5)
+    lst = list(cs)
+    rng.shuffle(lst)
+    return call('evaluate', g_simple(rng, cs), rng.randint(1, len(cs)), L(lst))
+
+
+def _c_partylist_closed(rng):
+    ps = ['A', 'B', 'C'][:rng.randint(2, 3)]
+    votes = D([(p, g_count(rng, frac=False)) for p in ps])
+    lists = D([(p, L([f'{p}{i}' for i in range(4)])) for p in ps])
+    k = {'party_lists': lists}
+    if rng.random() < 0.4:
+        k['prev_gains'] = D([(p, rng.randint(0, 1)) for p in ps if rng.random() < 0.5])
+    return call('evaluate', votes, g_seats(rng, 4), **k)
+
+
+def _c_partylist_open(rng):
+    ps = ['A', 'B', 'C'][:rng.randint(2, 3)]
+    votes = D([(p, g_count(rng, frac=False)) for p in ps])
+    lists = D([(p, L([f'{p}{i}' for i in range(4)])) for p in ps])
+    lv = D([(p, D([(f'{p}{i}', rng.randint(0, 9)) for i in range(4)])) for p in ps])
+    return call('evaluate', votes, g_seats(rng, 4), party_lists=lists, list_votes=lv)
+
+
+def _g_allocation(rng):
+    cands = g_cands(rng, 2, 4)
+    alloc = []
+    for c in cands:
+        votes = []
+        seen = set()
+        for _ in range(rng.randint(1, 3)):
+            rest = [x for x in cands if x != c]
+            rng.shuffle(rest)
+            tail = rest[:rng.randint(0, len(rest))]
+            if len(tail) >= 2 and rng.random() < 0.3:
+                tail = [S(tail[:2])] + tail[2:]
+            b = T([c] + tail)
+            k = json.dumps(b)
+            if k not in seen:
+                seen.add(k)
+                votes.append((b, rng.randint(1, 9)))
+        alloc.append((c, D(votes)))
+    return cands, D(alloc)
+
+
+def _c_transfer(rng):
+    cands, alloc = _g_allocation(rng)
+    return call('transfer', alloc, L(rng.sample(cands, rng.randint(1, max(1, len(cands) - 1)))))
+
+
+def _c_next_count(rng):
+    cands, alloc = _g_allocation(rng)
+    total = sum(n for _, d in alloc['D'] for _, n in d['D'])
+    a = [alloc, g_seats(rng, 2), total]
+    if rng.random() < 0.5:
+        return call('next_count', *a)
+    return call('next_count', *a, elected=L([]))
+
+
+def _c_validate_score(rng):
+    cs = rng.sample(CN, rng.randint(0, 4))
+    if cs and rng.random() < 0.15:
+        cs.append(cs[0])        # candidate scored twice
+    return call('validate', S([T([c, rng.choice([0, 1, 2, 3, 4, 5, 9])]) for c in cs]))
+
+
+def _c_nominate(rng):
+    r = rng.random()
+    if r < 0.3:
+        return call('validate', rng.choice(CN))
+    if r < 0.6:
+        return call('validate', _person('p1', 1, rng.choice(['A', None])))
+    if r < 0.8:
+        return call('validate', _party('A'))
+    return call('validate', {'O': ['Coalition', 'K', ['A', 'B']]})
